@@ -145,6 +145,12 @@ func runC12(r *core.Run) {
 			if r.Chance(8, "huge-init-serial?") {
 				b.SignSerialBig = hugeSerial(r)
 			}
+			if r.Chance(8, "twin-subject?") {
+				// legal, if odd: root and signing key are given the same common name AND serial, so
+				// their subject names are equal; the signing certificate is still a leaf
+				b.RootCN, b.SignCN, b.RootSerial, b.SignSerial, b.SignSerialBig = "GCE-cc-tcb", "GCE-cc-tcb", 7, 7, nil
+				r.Probe("twin-subject-bootstrap")
+			}
 			desc = fmt.Sprintf("bootstrap(ow=%v,kg=%v,rcn=%q,scn=%q,rs=%d,ss=%d)", f.Overwrite, f.KeepGoing, b.RootCN, b.SignCN, b.RootSerial, b.SignSerial)
 			err, _ = a.Bootstrap(b)
 			made = "boot"
